@@ -60,12 +60,22 @@ def stack_case(ctx, specs, keys='default', form='list', align=False, sort=False,
         kw['align'] = True
     if sort:
         kw['sort'] = True
-    if form == 'dict':
+    if form in ('dict', 'dict-rev', 'dict-subset'):
         names = ['k%d' % i for i in range(n)]
         arg = dict(zip(names, arrs))
-        if ks is not None:
-            kw['keys'] = names
         expkeys = names
+        if form == 'dict-rev':          # explicit keys in another order than the dict's insertion order
+            expkeys = list(reversed(names))
+            kw['keys'] = list(expkeys)
+        elif form == 'dict-subset':
+            expkeys = names[1:]
+            kw['keys'] = list(expkeys)
+        elif ks is not None:
+            kw['keys'] = names
+        sel = [names.index(k) for k in expkeys]
+        arrs = [arrs[i] for i in sel]
+        refs = [refs[i] for i in sel]
+        n = len(arrs)
     else:
         arg = list(arrs) if form == 'list' else tuple(arrs)
         if ks is not None:
@@ -232,6 +242,9 @@ def templates():
                         specs=[[[X], [n]]] * nin, align=align, sort=sort, keys='int' if n != 2 else 'rank')
     for form, keys in (('dict', 'default'), ('dict', 'str'), ('tuple', 'default'), ('list', 'str'), ('list', 'default')):
         add('stack-form-%s-%s' % (form, keys), 'stack_case', cost=1, specs=[[[X], [2]], [[X], [2]]], form=form, keys=keys)
+    add('stack-form-dict-rev', 'stack_case', cost=1, specs=[[[X], [2]], [[X], [2]]], form='dict-rev', share=[X])
+    add('stack-form-dict-rev-3', 'stack_case', cost=2, specs=[[[X], [2]], [[X], [2]], [[X], [2]]], form='dict-rev', share=[X])
+    add('stack-form-dict-subset', 'stack_case', cost=1, specs=[[[X], [2]], [[X], [2]], [[X], [2]]], form='dict-subset', share=[X])
     # 2-D inputs: same order, different order (square and not), second axis shared to keep it small
     for align in (False, True):
         add('stack-2d-same-%s' % align, 'stack_case', cost=4, specs=[[[X, Y], [2, 2]], [[X, Y], [2, 2]]], align=align, share=[Y])
